@@ -2,6 +2,7 @@ package govc
 
 import (
 	"fmt"
+	"math/big"
 	"sort"
 	"go/token"
 	"go/types"
@@ -352,6 +353,13 @@ func (e *Enc) applySpec(fr *Frame, st *State, spec *FuncSpec, ci calleeInfo, arg
 	}
 	if spec.Kind == "purestate" || spec.Kind == "mutating" {
 		e.work(st, e.bv64(1))
+	}
+	if ci.fn != nil && len(ci.fn.Blocks) > 0 {
+		// a callee with a body does work of its own: unknown unless its contract bounds it (ensures over the ghost work)
+		w := e.ghost(st, "work", smt.BV(128))
+		nw := c.Fresh("work", smt.BV(128))
+		e.assume(st, c.And(c.Cmp("bvuge", nw, w), c.Cmp("bvult", nw, c.Lit(new(big.Int).Lsh(big.NewInt(1), 101), 128))))
+		e.setGhost(st, "work", nw)
 	}
 	envPost := e.specEnv(nil, spec, st, pre, pre.Alloc, pkg)
 	bindArgs(envPost)
@@ -739,7 +747,11 @@ func (e *Enc) appendOp(fr *Frame, st *State, cc *ssa.CallCommon, args []*Val, po
 	b := st.clone()
 	b.Reach = c.And(st.Reach, c.Not(inplace))
 	nObj := e.allocObj(b, elemT)
+	// growth copies the existing elements: amortised O(1) per appended element (capacity doubles), so the ghost
+	// work counter charges only the appended elements, as in the in-place branch
+	wBefore := e.ghost(b, "work", smt.BV(128))
 	e.copyElems(b, pre, elemT, nObj, e.bv64(0), sObj, sOff, sLen)
+	e.setGhost(b, "work", wBefore)
 	e.copyElems(b, pre, elemT, nObj, sLen, tObj, tOff, tLen)
 	nCap := c.Fresh("appendcap", smt.BV(64))
 	// an allocation of 2^40 or more elements does not succeed (listed assumption)
